@@ -95,8 +95,18 @@ Consume ==
             /\ bad' = Add(ProbeClause(st), st)
             /\ UNCHANGED <<mix, lb, own, lastmod>>
        [] st.op = "rprobe" ->
+            \* C08: the recursion lands in the probed node itself.  C16: in particular a registration on
+            \* a node this one does not derive from (a child, a sibling) must not redirect it
             /\ used' = used \cup {st.n}
-            /\ bad' = Add(IF st.marker # st.n THEN "C08:reenters_dispatcher." \o st.via ELSE "", st)
+            /\ bad' = LET b1 == Add(IF st.marker # st.n THEN "C08:reenters_dispatcher." \o st.via ELSE "", st) IN
+                      IF st.marker # st.n /\ lastmod # 0 /\ lastmod # st.n /\ lastmod \notin AncOf(mix, st.n)
+                      THEN b1 \o ",C16:parents_untouched.recursion." \o st.via \o "@" \o ToString(l) \o "#0"
+                      ELSE b1
+            /\ UNCHANGED <<mix, lb, own, lastmod>>
+       [] st.op = "rprobe3" ->
+            \* recurse(a, recurse(b, c)) = f(a, f(b, c)) for the function the call came through
+            /\ used' = used \cup {st.n}
+            /\ bad' = Add(IF st.rec # st.direct THEN "C08:reenters_dispatcher.nested_arguments." \o st.via ELSE "", st)
             /\ UNCHANGED <<mix, lb, own, lastmod>>
        [] st.op = "rprobe2" ->
             \* recurse(args) = calling, with those args, the function the current call came through
